@@ -14,7 +14,7 @@ RULE = ('Cases = request type (worker, persistent worker, context create, contex
 ASSUMPTIONS = ['after each faulty client the server must be alive and serve a fresh RemoteWorker round trip within 120 simulated s']
 
 REQS = ['worker', 'pworker', 'ctx-create', 'ctx-delete', 'worker-in-ctx']
-STEPS = ['never-ctrl', 'ctrl-connect-close', 'close-after-info', 'vanish-running']
+STEPS = ['never-ctrl', 'ctrl-connect-close', 'ctrl-connect-reset', 'close-after-info', 'vanish-running']
 
 
 def mk_case(ctx, seq, concurrent, idx, policy=None, knobs=None, tag='', census=False, seed=None):
@@ -113,6 +113,13 @@ class Run:
             s.sleep(0.2)
             cs.close()
             return
+        if step == 'ctrl-connect-reset':
+            # the control connection is reset before the server gets to accept() it
+            set_linger(ct, True, 0)
+            ct.close()
+            s.sleep(0.2)
+            cs.close()
+            return
         try:
             info = recv_msg(ct)
         except ConnectionClosedError:
@@ -160,7 +167,7 @@ class Run:
             p = s.procs.get(srv.pid)
             if p is None or not p.alive:
                 exc = [e for e in s.truth if e['kind'] == 'child-main-exception' and e.get('pid_') == srv.pid]
-                phase = 'step' if f.get('step') else self.where(f, data)
+                phase = ('step=' + f['step']) if f.get('step') else self.where(f, data)
                 self.viol('server-survives', f'server-died:{exc[0]["exc"] + "@" + str(exc[0].get("where")) if exc else "?"}:'
                           f'{"context" if f["req"].startswith("ctx") else "worker"}-request:{phase}', {'tag': tag, 'exc': exc[:1]})
                 return
